@@ -84,7 +84,12 @@ def finish(chk, prog, explanation, trusted_base, assumptions, seed=0, extra=None
     """Apply the known-findings protocol, write evidence, print verdict lines.
     Returns the process exit code."""
     known = load_known()
-    kf = {norm_key(k["key"]): k for k in known.get("findings", []) if k["property"] == chk.pid}
+    # a known finding is matched modulo closure nesting: whether the offending call sits in a closure, a closure in a
+    # closure or a named function spliced into it is not part of what fails
+    def _kf_key(k):
+        return re.sub(r"(::\{closure\})+", "", norm_key(k))
+
+    kf = {_kf_key(k["key"]): k for k in known.get("findings", []) if k["property"] == chk.pid}
     violated = [o for o in chk.obs if o["status"] == "violated"]
     # "cannot decide" is not "violated": when a rule no longer finds the construct it was written for (an anchor function
     # or pattern is gone, an instance count fell below the reviewed floor, the rule crashed on code of a new shape) the
@@ -101,9 +106,9 @@ def finish(chk, prog, explanation, trusted_base, assumptions, seed=0, extra=None
     new = []
     seen_known = set()
     for o in violated:
-        if o["key"] in kf:
+        if _kf_key(o["key"]) in kf:
             o["status"] = "known-finding"
-            seen_known.add(o["key"])
+            seen_known.add(_kf_key(o["key"]))
         else:
             new.append(o)
     for k in sorted(seen_known):
